@@ -417,9 +417,15 @@ class CsOracle:
             ignore = any("NullValueHandling.Ignore" in a for a in g["attrs"])
             self.evaluations += 2
             if value_collection:
-                # C# value types: absence is expressed by a defaulted constructor parameter
+                # ImmutableArray / ImmutableDictionary are C# value types: the plugin expresses absence by a defaulted constructor
+                # parameter and declares neither `?` nor NullValueHandling.Ignore. The property's rule is stated for every data
+                # member, so it is applied here too - under symptoms of their own (known finding KF-dotnet-optional-collections)
                 if not (optional or nulladm) and (g["nullable"] or ignore):
                     self.fail("nullability", f"{sname}.{name}", "required collection marked nullable / null-ignoring")
+                if (optional or nulladm) and not g["nullable"]:
+                    self.fail("nullability-collection", f"{sname}.{name}", f"collection member is not nullable, optional={optional}, null-admitting={nulladm}")
+                if (optional and not nulladm) and not ignore:
+                    self.fail("null-ignoring-collection", f"{sname}.{name}", f"optional collection member without NullValueHandling.Ignore (its converter writes null for an absent value)")
             else:
                 if g["nullable"] != (optional or nulladm):
                     self.fail("nullability", f"{sname}.{name}", f"nullable={g['nullable']}, optional={optional}, null-admitting={nulladm}")
